@@ -287,7 +287,12 @@ func cmdCheck(args []string) int {
 				}
 			}
 		}
+		incomplete := outcomes["unsupported"]+outcomes["engine-error"]+outcomes["budget"]+outcomes["cut"] > 0
 		for _, r := range h.Reach {
+			if reach[r] == 0 && incomplete {
+				rep.Lines = append(rep.Lines, fmt.Sprintf("INCONCLUSIVE: property=%s %s: reachability witness '%s' not reached, but some paths left the supported fragment (no verdict)", id, h.Name, r))
+				continue
+			}
 			if reach[r] == 0 {
 				rep.Violations = append(rep.Violations, &ViolationReport{Key: h.Name + ":vacuity:" + r, Harness: h.Name,
 					Detail: "reachability witness '" + r + "' is not reached on any path: the success outcome the property is about never happens", Confirmed: "symbolic-trace"})
